@@ -110,6 +110,34 @@ def concretise(src, seed, ops, modes):
     return acts
 
 
+def same_object_replay(src, seed, actions, modes):
+    """On ONE environment object: seed, run generative steps from the initial
+    state; seed identically again, repeat the same calls -> identical results.
+    (Hidden buffers of pre-drawn random numbers survive a re-seed.)"""
+    from .oracles import canon_info
+    scn = build_scenario(src)
+    env = sources.make_env(scn, **modes)
+    env.reset()
+    n = env.action_space.n
+    state = env.current_state
+
+    def run():
+        np.random.seed(seed)
+        out = []
+        st_ = state
+        for a in actions[:40]:
+            ns, obs, r, d, info = env.generative_step(st_, int(a % n))
+            out.append((ns.tensor.tobytes(), float(r), bool(d), json.dumps(canon_info(info), sort_keys=True)))
+            st_ = ns
+        return out
+    first = run()
+    second = run()
+    for i, (x, y) in enumerate(zip(first, second)):
+        if x != y:
+            return i
+    return None
+
+
 def worker_main(path):
     """subprocess entry: compute fingerprints / trajectory hashes for a batch"""
     jobs = json.load(open(path))
@@ -243,6 +271,10 @@ def main(tier, replay=None):
             else:
                 h1, ch = trajectory_hash(j["source"], j["seed"], j["actions"], j["modes"])
                 h2, _ = trajectory_hash(j["source"], j["seed"], j["actions"], j["modes"])
+                bad = same_object_replay(j["source"], j["seed"], j["actions"], j["modes"])
+                if bad is not None:
+                    rep.fail("C14:reseeded-replay-differs", f"one environment object, np.random.seed({j['seed']}) then generative steps from the "
+                             f"initial state, re-seeded identically and repeated: results differ at call {bad}", dict(job=j))
                 first.append(h1)
                 second.append(h2)
                 chance_steps.append(ch)
